@@ -1,4 +1,7 @@
 use serde_yaml::{Mapping, Sequence, Value};
+#[cfg(feature = "verif")]
+use oal_model::verif::ChoiceMap as HashMap;
+#[cfg(not(feature = "verif"))]
 use std::collections::HashMap;
 
 /// An indexed annotation set.
